@@ -411,3 +411,39 @@ def check_bound_prefilter(ck, P, rid):
         else:
             ck.inconclusive(rid, inst2, asg.where, "bound update %s not recognised" % X.show(rhs)[:80], cfg)
     ck.expect(rid, n, 4, "writers of process_ctx.bound")
+    # (c) the straggler test reads the newest history entry (array_peek) whenever bound >= timestamp: the history must not be
+    # empty then.  The invariant "history empty => bound < 0" is re-established AFTER every call that can shrink the history:
+    # on every path from such a call to the end of process_msg a store to bound follows.
+    shrinkers = set()
+    for g in P.all_functions():
+        if not g.file.startswith("src/"):
+            continue
+        for x in g.walk():
+            if x.k == "StmtExpr" and x.macros and x.macros[0] == "array_truncate_first" and "p_msgs" in (x.d.get("mcall") or ""):
+                shrinkers.add(g.name)
+            if x.k == "BinaryOperator" and x.op == "=":
+                t = X.strip(x.children[0])
+                if t.k == "MemberExpr" and t.name == "count" and "p_msgs" in X.show(t):
+                    shrinkers.add(g.name)
+    cg = Q.call_graph(P)
+    changed = True
+    while changed:
+        changed = False
+        for caller, callees in cg.items():
+            if caller not in shrinkers and callees & shrinkers and caller != "process_msg":
+                shrinkers.add(caller)
+                changed = True
+    stores = [a for a in f.walk() if a.k == "BinaryOperator" and a.op == "=" and is_bound(X.strip(a.children[0]))]
+    k = 0
+    for c in f.calls():
+        if c.callee in shrinkers:
+            k += 1
+            inst3 = "bound-after-shrink@process_msg:%s" % c.callee
+            peeks = [x.id for x in f.walk() if x.k == "ArraySubscriptExpr" and "array_peek" in ((x.d.get("m") or []) + (x.d.get("me") or []))]
+            w = f.cfg.escapes(f.cfg.position(c), {a.id for a in stores}, goal="exit", goal_ids=peeks)
+            if w:
+                ck.violated(rid, inst3, c.where, "%s can empty the history, and a path from it to the straggler test or to the end of process_msg does not update `bound` afterwards: with a stale non-negative bound the "
+                            "next message passes the pre-filter and the straggler test reads the newest entry of an empty history" % c.callee, cfg)
+            else:
+                ck.holds(rid, inst3, c.where, "every path from %s to the end of process_msg re-establishes `history empty => bound < 0` (or appends an event)" % c.callee, cfg)
+    ck.expect(rid, k, 3, "calls in process_msg that can shrink the history")
